@@ -43,3 +43,19 @@ Example C05_legacy_refuted_u32 :
     {| d_size := 8; d_bl_off := 0; d_bl_t := U32; d_n_off := 4; d_n_t := U32; d_fills := nil |}
     65536 65536 = Some 8.
 Proof. vm_compute. reflexivity. Qed.
+
+From Sbepp Require Import Cursor CursorSpec CursorProofs.
+
+(* the generated trait-level formula message_traits::size_bytes(counts...,
+   total_data_size) -- one count per group in pre-order times the per-entry
+   constant, plus headers and total data -- equals the length of the image for
+   every value tree encoded under the current schema *)
+Theorem C05_trait_size_is_image_length : stmt_trait_size_is_image_length.
+Proof. exact trait_size_is_image_length. Qed.
+Print Assumptions C05_trait_size_is_image_length.
+
+(* the cursor-based size after a full traversal: the cursor ends at the end of
+   the image *)
+Theorem C05_cursor_size_after_traversal : stmt_trav_message_enc''.
+Proof. exact trav_message_enc''. Qed.
+Print Assumptions C05_cursor_size_after_traversal.
